@@ -127,8 +127,8 @@ static void program(Rng& r) {
     for (u32 s = 0; s < steps; ++s) {
         if (pool.empty()) pool.push_back(fresh(r));
         u32 ai = r.below((u32)pool.size()); PDU* a = pool[ai];
-        u32 op = r.below(20); std::string name;
-        if (husks.count(a)) { u32 h = r.below(3); op = h == 0 ? 16 : h == 1 ? 21 : 22; }
+        u32 op = r.below(23); std::string name;
+        if (husks.count(a)) { u32 h = r.below(3); op = h == 0 ? 16 : h == 1 ? 31 : 32; }
         describe_case(g_prog + " <next op=" + std::to_string(op) + " on #" + std::to_string(ai) + ">");
         switch (op) {
             case 0: { if (pool.size() < 12) { pool.push_back(fresh(r)); } name = "construct"; break; }
@@ -166,8 +166,8 @@ static void program(Rng& r) {
                       at->inner_pdu(*b); g_prog += "#" + std::to_string(ai) + ".inner_pdu(ref #" + std::to_string(bi) + "); "; cnt("op:inner_pdu-ref"); break; }
             case 15: { name = "release_inner_pdu"; PDU* at = a; u32 depth = r.below(3); while (depth-- && at->inner_pdu()) at = at->inner_pdu(); PDU* rel = at->release_inner_pdu(); g_prog += "#" + std::to_string(ai) + ".release_inner_pdu(); ";
                       if (rel) { if (rel->parent_pdu()) violation("release/parent-link", "released layer still has a parent :: " + g_prog); if (r.chance(1, 3)) { delete rel; g_prog += "delete released; "; } else if (r.chance(1, 2) && pool.size() < 12) pool.push_back(rel); else { at->inner_pdu(rel); g_prog += "re-attach; "; } } cnt("op:release"); break; }
-            case 21: { name = "reuse-moved-from:new-child"; Bytes b = r.bytes(3); a->inner_pdu(new RawPDU(b.data(), 3)); g_prog += "#" + std::to_string(ai) + "(moved-from).inner_pdu(new Raw); "; cnt("op:reuse-moved-from"); break; }
-            case 22: { name = "reuse-moved-from:assign-into"; const Ops* o = ops_for(a); if (!o) break; PDU* src = nullptr; u32 si = 0; for (u32 t = 0; t < pool.size(); ++t) if (pool[t] != a && !husks.count(pool[t]) && o->is(pool[t])) { src = pool[t]; si = t; break; } if (!src) break;
+            case 31: { name = "reuse-moved-from:new-child"; Bytes b = r.bytes(3); a->inner_pdu(new RawPDU(b.data(), 3)); g_prog += "#" + std::to_string(ai) + "(moved-from).inner_pdu(new Raw); "; cnt("op:reuse-moved-from"); break; }
+            case 32: { name = "reuse-moved-from:assign-into"; const Ops* o = ops_for(a); if (!o) break; PDU* src = nullptr; u32 si = 0; for (u32 t = 0; t < pool.size(); ++t) if (pool[t] != a && !husks.count(pool[t]) && o->is(pool[t])) { src = pool[t]; si = t; break; } if (!src) break;
                       Snapshot ss = snap(src); o->copy_assign(a, src); husks.erase(a); g_prog += "#" + std::to_string(ai) + "(moved-from) = #" + std::to_string(si) + "; "; Snapshot sd = snap(a); same(ss, sd, "copy-assign-into-moved-from", o->name); cnt("op:reuse-moved-from"); break; }
             case 16: { name = "delete"; husks.erase(a); delete a; pool.erase(pool.begin() + ai); g_prog += "delete #" + std::to_string(ai) + "; "; cnt("op:delete"); break; }
             case 17: { name = "packet-wrap"; if (packets.size() >= 4) { delete packets.back(); packets.pop_back(); g_prog += "~Packet; "; break; }
@@ -183,6 +183,19 @@ static void program(Rng& r) {
                       else if (how == 2) { Packet* d = packets[r.below((u32)packets.size())]; *d = *src; g_prog += "Packet = Packet; "; if (d->pdu()) { Snapshot sd = snap(d->pdu()); same(ss, sd, "packet-copy", "assign"); } }
                       else { PDU* rel = src->release_pdu(); g_prog += "release_pdu; "; if (rel && pool.size() < 12) pool.push_back(rel); else delete rel; }
                       cnt("op:packet-copy-move"); break; }
+            case 20: case 21: { name = "clone-inner-layer"; if (!a->inner_pdu() || pool.size() >= 12) break; PDU* layer = a->inner_pdu(); u32 depth = r.below(3); while (depth-- && layer->inner_pdu()) layer = layer->inner_pdu();
+                      // a copy of a layer that sits inside a packet is a new root: it owns a copy of everything below that layer and has no parent
+                      PDU* c = nullptr; const Ops* o = ops_for(layer);
+                      if (op == 20 || !o) { c = layer->clone(); g_prog += "clone(inner layer of #" + std::to_string(ai) + ":" + cls(layer) + "); "; } else { c = o->copy_construct(layer); g_prog += "copy-ctor(inner layer of #" + std::to_string(ai) + ":" + o->name + "); "; }
+                      pool.push_back(c);
+                      { std::string ca, cb; for (const PDU* q = layer; q; q = q->inner_pdu()) ca += cls(q) + "/"; for (const PDU* q = c; q; q = q->inner_pdu()) cb += cls(q) + "/"; if (ca != cb) violation("clone-inner-layer/layers-differ/" + cls(layer), "copy of an inner layer has layers " + cb + " instead of " + ca + " :: " + g_prog); }
+                      if (r.chance(1, 2)) { delete a; pool.erase(pool.begin() + ai); g_prog += "delete #" + std::to_string(ai) + " (the source); "; }      // the copy must not depend on the source being alive
+                      { Snapshot sc = snap(pool.back()); (void)sc; }
+                      cnt("op:clone-inner-layer"); break; }
+            case 22: { name = "packet-assign-from-empty"; if (packets.empty()) break; Packet* d = packets[r.below((u32)packets.size())]; Packet empty; u32 how = r.below(2);
+                      if (how == 0) { *d = empty; g_prog += "Packet = empty Packet; "; } else { Packet e2; *d = std::move(e2); g_prog += "Packet = move(empty Packet); "; }
+                      if (d->pdu()) violation("packet-assign-from-empty/target-keeps-pdu", "a Packet assigned from an empty Packet still holds its old layers (copy is not equal to its source) :: " + g_prog);
+                      cnt("op:packet-assign-from-empty"); break; }
             default: { name = "inner-replace-self-clone"; if (!a->inner_pdu()) break; a->inner_pdu(a->inner_pdu()->clone()); g_prog += "#" + std::to_string(ai) + ".inner_pdu(clone of its own child); "; cnt("op:replace-child-with-its-clone"); }
         }
         if (name.empty()) continue;
